@@ -481,7 +481,12 @@ func MakeHashInputProvider(ctl *CallbackCtl) atree.HashInputProvider {
 		if err := ctl.hit("hip"); err != nil {
 			return nil, err
 		}
-		return hashInputOf(v, buf)
+		msg, err := hashInputOf(v, buf)
+		// a second seam after the message was written into the caller's (pooled) scratch buffer
+		if ctl != nil && ctl.Yield != nil {
+			ctl.Yield("hip.post")
+		}
+		return msg, err
 	}
 }
 
